@@ -130,7 +130,7 @@ def judge(kind, cfg, obs, intr: Interrupts):
     elif not isinstance(oc[1], KeyboardInterrupt):
         add(f'wrong-exception:{type(oc[1]).__name__}', f'run_tasks raised {type(oc[1]).__name__}: {str(oc[1])[:150]} instead of KeyboardInterrupt', two)
     # nothing started after the interrupt
-    if kind == 'serial':
+    if kind.startswith('serial'):
         seen = False
         for ev in obs.world:
             if ev[0] == 'interrupt':
@@ -193,7 +193,7 @@ def run_case(args):
     seen = set()
     n = 0
     fired_n = 0
-    base = cfg.base if kind != 'serial' else cfg
+    base = cfg.base if not kind.startswith('serial') else cfg
 
     def handle(obs, intr, choices):
         nonlocal n, fired_n
@@ -208,10 +208,9 @@ def run_case(args):
             seen.add(key)
             res.append((key, msg + f' | cfg={cfg.brief()} k={k1},{k2} choices={choices}',
                         {'kind': kind, 'cfg': cfg.to_json(), 'k1': k1, 'k2': k2, 'choices': choices}))
-    if kind == 'serial':
+    if kind in ('serial', 'serial+displays'):
         intr = Interrupts(k1, k2)
-        obs = run_once_serial(cfg, around_run=intr)
-        obs.storage._keep = True
+        obs = run_once_serial(cfg, around_run=intr, displays=(kind != 'serial'))
         handle(obs, intr, [])
     else:
         def run(ch):
@@ -226,9 +225,9 @@ def count_events(kind, cfg, max_dev):
     """Baseline: line-event counts (and sites) without injection, maximum over schedules."""
     silence_labtech()
     best = (0, [])
-    if kind == 'serial':
+    if kind in ('serial', 'serial+displays'):
         intr = Interrupts(None)
-        run_once_serial(cfg, around_run=intr)
+        run_once_serial(cfg, around_run=intr, displays=(kind != 'serial'))
         return intr.inj.count, intr.inj.sites
 
     def run(ch):
@@ -255,7 +254,9 @@ def harnesses(tier):
     out = [('serial', e2.Config(spec=chain, requested=req3), 0),
            ('serial', e2.Config(spec=three, requested=((2, False),), precached=(0,)), 0),
            # re-execution over existing entries: an interrupt in the middle of an overwrite
-           ('serial', e2.Config(spec=chain, requested=req3, precached=(0, 1, 2), bust_cache=True), 0)]
+           ('serial', e2.Config(spec=chain, requested=req3, precached=(0, 1, 2), bust_cache=True), 0),
+           # default displays on: progress bars and the task monitor (psutil queries) run in the calling thread too
+           ('serial+displays', e2.Config(spec=mk_spec(((), ()), types=('TA', 'TA')), requested=((0, False), (1, False))), 0)]
     dev = 1 if tier == 'quick' else 2
     for be in ('fork', 'spawn'):
         for mw in (1, 2):
@@ -290,7 +291,7 @@ def run(tier: str, seed: int) -> Result:
         for k1 in reps:
             horizon = K + 400
             for k2 in range(k1 + 1, min(horizon, k1 + (120 if tier == 'quick' else 400)) + 1):
-                work.append((kind, cfg, k1, k2, 0 if kind != 'serial' else 0))
+                work.append((kind, cfg, k1, k2, 0))
     work = rotate(work, seed)
     viols = []
     n_exec = n_fired = 0
@@ -321,10 +322,10 @@ def run(tier: str, seed: int) -> Result:
 def replay(payload) -> int:
     silence_labtech()
     kind = payload['kind']
-    cfg = e2.Config.from_json(payload['cfg']) if kind == 'serial' else e3.E3Config.from_json(payload['cfg'])
+    cfg = e2.Config.from_json(payload['cfg']) if kind.startswith('serial') else e3.E3Config.from_json(payload['cfg'])
     intr = Interrupts(payload['k1'], payload['k2'])
-    if kind == 'serial':
-        obs = run_once_serial(cfg, around_run=intr)
+    if kind.startswith('serial'):
+        obs = run_once_serial(cfg, around_run=intr, displays=(kind != 'serial'))
     else:
         obs = e3.run_once_e3(cfg, Chooser(payload['choices']), around_run=intr)
         for ev in obs.vworld.events:
@@ -333,7 +334,7 @@ def replay(payload) -> int:
         print('  ', ev)
     print('fired:', intr.inj.fired)
     print('outcome:', obs.outcome[0], repr(obs.outcome[1])[:200])
-    j = judge(kind, cfg.base if kind != 'serial' else cfg, obs, intr) or []
+    j = judge(kind, cfg.base if not kind.startswith('serial') else cfg, obs, intr) or []
     for k, m in j:
         print(' ', k, m)
     return 1 if j else 0
